@@ -230,6 +230,16 @@ EXTRA8 = {
 }
 for _pid, (_t, _n) in EXTRA8.items():
     EXTRA[_pid] = (EXTRA.get(_pid, ("", ""))[0] + _t, EXTRA.get(_pid, ("", ""))[1] + _n)
+EXTRA9 = {
+ "C03": (" The same with the library's own FlowProperties (executed symbolically) on a dict and on a DataFrame with reversed integer row labels.", ""),
+ "C08": (" The dry-gas table built after a wet-gas table for the same inputs, within one path.", ""),
+ "C09": (" The diffusivity lookup at every node's scaled pseudopressure returns that node's value, also above the initial pressure.", ""),
+ "C12": (" The replay family runs float32 pressure grids (storage rounding is outside the engine's real-number model).", ""),
+ "C16": (" A second build after the same dict table was edited in place.", ""),
+ "C19": (" The rejection replay tries the near misses of the accepted fluid names (letter case, white space, separators).", ""),
+}
+for _pid, (_t, _n) in EXTRA9.items():
+    EXTRA[_pid] = (EXTRA.get(_pid, ("", ""))[0] + _t, EXTRA.get(_pid, ("", ""))[1] + _n)
 for _pid, (_t, _n) in EXTRA.items():
     CHECKS[_pid]["text"] += _t
     CHECKS[_pid]["note"] += _n
